@@ -615,3 +615,28 @@ def coverage_extra(tier, seed, results):
         pl = r["cfg"]["plane"]
         planes[pl] = planes.get(pl, 0) + 1
     return {"cases_per_plane": planes}
+
+# ---- call-order plane (executed by mc/core.py in fresh interpreters, see mc/props/_hist_common.py): the result of
+# a call must not depend on which other calls (other dtype / method / size / options) were made before it
+_HIST_LABELS = [('float32', 'exactsolve', 0), ('float64', 'exactsolve', 0), ('float64', 'exactsolve', 1), ('complex128', 'exactsolve', 1), ('float64', 'cg', 1), ('float32', 'cg', 0)]
+HISTORY = {"labels": ["/".join(str(x) for x in c) for c in _HIST_LABELS], "tol": [0.0001, 1e-11, 1e-11, 1e-11, 1e-08, 0.001],
+           "depth": {"quick": 2, "thorough": 3},
+           "prelude": r'''import torch, xitorch
+from xitorch import LinearOperator
+from xitorch.linalg import solve
+CALLS = %r
+def do(i):
+    dtn, method, withE = CALLS[i]
+    dt = getattr(torch, dtn)
+    g = torch.Generator().manual_seed(5)
+    n = 6
+    A0 = torch.randn((n, n), generator=g, dtype=torch.float64)
+    A = (A0 @ A0.T / n + torch.eye(n, dtype=torch.float64) * 2.0).to(dt)
+    B = torch.randn((n, 2), generator=g, dtype=torch.float64).to(dt)
+    E = torch.tensor([0.3, -0.4], dtype=torch.float64).to(dt) if withE else None
+    opts = {} if method == "exactsolve" else {"rtol": 1e-12, "atol": 1e-14, "max_niter": 60}
+    torch.manual_seed(0)
+    x = solve(LinearOperator.m(A, is_hermitian=True), B, E, method=method, **opts)
+    x = torch.view_as_real(x) if x.is_complex() else x
+    return x.double().reshape(-1).tolist()
+''' % (_HIST_LABELS,)}
